@@ -15,8 +15,8 @@ CLAIMED = {
    note="bounded: version components 0..2 (thorough 0..3), one pre-release tag; trusted: TLC, Semver.tla (cross-checked per run against crate semver), syn, vdrive",
    ref="DESIGN.md 6 C13"),
  "C16": dict(
-   text="the type space is specified as a state machine over the public ingestion calls (TypeSpaceContract.tla: promised projections of returned ids, ids returned per added schema, rendered definition set); TLC enumerates every history of up to 3 (thorough 4) calls over 16 call templates, each history is replayed against the real TypeSpace with an observation after every call, and the recorded trace is validated by TLC action by action (IdStable, Idempotent, NoDupNames) plus batch independence across histories of the same group",
-   note="bounded: histories <= 3/4 calls over a fixed template pool; trusted: TLC, vdrive's observation through the public API",
+   text="the type space is specified as a state machine over the public ingestion calls (TypeSpaceContract.tla: promised projections of returned ids, ids returned per added schema, rendered definition set); TLC enumerates every history of up to 3 (thorough 4) calls over 16 call templates, each history is replayed against the real TypeSpace with an observation after every call, and the recorded trace is validated by TLC action by action (IdStable, Idempotent, NoDupNames) plus batch independence across histories of the same group; the implementation model spec/TypeSpaceImpl.tla (next_id, id_to_entry, name_to_id, ref_to_id) is model-checked (MC_TypeSpace: index invariants, StepConforms) and every recorded call of the real TypeSpace (hook verif_snapshot) is validated by Trace_TS as a step of that model (StepOK) ending in a state that satisfies its invariants",
+   note="bounded: histories <= 3 calls over 37 templates (thorough: plus seeded behaviours up to 6 calls); trusted: TLC, vdrive's observation through the public API, hook verif_snapshot",
    ref="DESIGN.md 6 C16"),
  "C07": dict(
    text="TLC enumerates every reference multigraph within the bound (n<=2 over 7 edge kinds, n=3 over a reduced alphabet) and builds the schema document in TLA+; each is ingested by the real typify and the containment graph of the generated types (internal snapshot and, independently, a Type::details() walk) is validated by TLC against Containment.tla: acyclic by value, and no Box at all when the schema graph is acyclic; a third observation is the by-value graph of the rendered items (emission stage); the implementation model Cycles.tla of break_cycles is model-checked over all small graphs (MC_Cycles) and every recorded step of the real loop (hook cycle_event) is validated against it by Trace_Cycles",
